@@ -160,7 +160,9 @@ class Check:
                     if f is not None:
                         self.candidate(f)
             elif ob.status != "unsat":
-                fb = ob.meta.get("fallback")
+                # the solver could neither prove nor refute: fall back to the replay recipe (which pushes concrete points of the
+                # validity box through the real code); this can turn an INCONCLUSIVE into a VIOLATION, never into a pass
+                fb = ob.meta.get("fallback") or ob.meta.get("finding")
                 if fb is not None:
                     try:
                         f = fb(ob)
@@ -168,6 +170,7 @@ class Check:
                         f = None
                         self.note("fallback for %s failed: %r" % (ob.label, e))
                     if f is not None:
+                        f.label = f.label + " [solver: %s]" % ob.status
                         self.candidate(f)
                         continue
                 try:
